@@ -91,6 +91,14 @@ S = {
  "C18E": "cfgFloat.toString formats whole numbers through int64: [2^63, 2^64) and -2^63 read differently through JSON and YAML",
  "C19E": "Collector.Add skips configs without named top-level fields: list-shaped settings (-D 0=x) are dropped",
  "C06E": "normalizeArray fast path for integer kinds stores []time.Duration / [N]time.Duration elements as nanosecond counts (read back as seconds)",
+ "C01E": "mergeConfigPrependArr drops the target's dictionary part: an object (or mixed node) that receives a list under PrependValues loses its named settings",
+ "C05E": "normalizeMapInto de-duplicates key names: \"a\" and MyStr(\"a\") in an interface-keyed map are no longer a duplicate",
+ "C05F": "a root *Config used as a named setting is not copied: a dotted key extending it writes into the caller's Config, a second use sees the addition",
+ "C08E": "inline fields skip the per-field reset of the active references: an object reference used by a field before an inline struct and inside it is a cycle",
+ "C08F": "flattenedKeys shares one active-reference set per level: the second sibling referring to the same object is listed as a bare leaf",
+ "C10E": "cfgSub.cpy reuses the fields of an empty sub-configuration (variant of C10B in other code)",
+ "C12E": "the storedInPlace guard dropped from the index-wise list merge: handles to merged list elements go stale",
+ "C16E": "includeWildcard hands the whole parent tree down whenever any ** option exists: a policy for top-level a also matches b.a",
 }
 
 rows = []
